@@ -813,6 +813,326 @@ mutual
       rfl
 end
 
+omit hR in
+theorem tag_after_write (t : XItem) (hr : t.representable H = true) (rest : List Tok) :
+    XCur.tag T (after ((xmlWrite T R t).toks ++ rest)) = t.tag := by
+  cases t <;>
+    simp only [xmlWrite, toks_xmlScalar, XElem.toks, after, List.cons_append, XItem.tag] <;>
+    exact tag_xmlStart T hT _ (XItem.tagOk_of_rep hr) _ _
+
 end
+
+mutual
+  theorem size_le_toks (T : Tables) (R : Rfc3339) : ∀ t : XItem, t.size + 1 ≤ 2 * (xmlWrite T R t).toks.length
+    | .struct tag cs => by
+      have := sizeList_le_toks T R cs
+      simp [xmlWrite, XElem.toks, XItem.size]; omega
+    | .int .. | .mask .. | .long .. | .big .. | .enum .. | .bool .. | .text .. | .bytes .. | .date ..
+    | .interval .. => by simp [xmlWrite, xmlScalar, XElem.toks, XElem.toksList, XItem.size]
+  theorem sizeList_le_toks (T : Tables) (R : Rfc3339) : ∀ cs : List XItem,
+      XItem.sizeList cs ≤ 2 * (XElem.toksList (xmlWriteList T R cs)).length + 1
+    | [] => by simp [XItem.sizeList, xmlWriteList, XElem.toksList]
+    | c :: cs => by
+      have h1 := size_le_toks T R c
+      have h2 := sizeList_le_toks T R cs
+      simp [XItem.sizeList, xmlWriteList, XElem.toksList]; omega
+end
+
+theorem toks_ne_nil (e : XElem) : e.toks ≠ [] := by cases e; simp [XElem.toks]
+
+/-- XML: the reader reads back every representable tree the writer wrote. -/
+theorem xmlRead_write {T : Tables} (hT : T.WF) {R : Rfc3339} (hR : R.Lawful) {H : Hints} (t : XItem)
+    (hr : t.representable H = true) : xmlRead T R H (xmlWrite T R t) = .ok t := by
+  unfold xmlRead xmlReadToks
+  have hn : XCur.next ⟨none, (xmlWrite T R t).toks⟩ = .ok (after (xmlWrite T R t).toks) :=
+    next_noskip (Or.inl rfl) (Or.inl (toks_ne_nil _))
+  rw [hn]
+  simp only [Res.ok_bind]
+  have ht := tag_after_write hT (R := R) t hr []
+  have hv := xDecodeValue_write hT hR t (2 * (xmlWrite T R t).toks.length + 2) []
+    (by have := size_le_toks T R t; omega) hr
+  rw [List.append_nil] at ht hv
+  rw [ht, hv]
+  rfl
+
+/-! ## 9. JSON: elements -/
+
+theorem typeName_nonempty : ∀ ty, ty < 11 → 1 ≤ ty → (typeName ty).isEmpty = false := by decide
+
+theorem tagString_nonneg (T : Tables) {tag : Int} (htag : tagOk tag = true) :
+    tagString T tag = tagToText T.tagNames tag.toNat := by
+  have ⟨h0, h1⟩ := tagOk_iff.mp htag
+  have hneg : ¬ tag < 0 := by omega
+  simp only [tagString, tagNameOf, hneg, if_false, tagToText, uintOf_nonneg (Int.le_of_lt h0) h1]
+  cases lookup tag.toNat T.tagNames <;> rfl
+
+def tyFields (ty : Nat) : List (Str × JVal) := if ty == 1 then [] else [(sType, .str (typeName ty))]
+
+theorem jsonElem_eq (T : Tables) (ty : Nat) (tag : Int) (v : JVal) :
+    jsonElem T ty tag v = .obj ((sTag, .str (tagString T tag)) :: (tyFields ty ++ [(sValue, v)])) := rfl
+
+theorem get_sTag (T : Tables) (ty : Nat) (tag : Int) (v : JVal) (more : List JVal) :
+    JCur.get ⟨jsonElem T ty tag v :: more⟩ sTag = some (.str (tagString T tag)) := by
+  rw [jsonElem_eq]
+  unfold tyFields
+  by_cases h : (ty == 1) = true <;>
+    simp [h, JCur.get, fieldOf, sType_ne_sTag, sValue_ne_sTag]
+
+theorem get_sType (T : Tables) (ty : Nat) (tag : Int) (v : JVal) (more : List JVal) :
+    JCur.get ⟨jsonElem T ty tag v :: more⟩ sType =
+      if ty == 1 then none else some (.str (typeName ty)) := by
+  rw [jsonElem_eq]
+  unfold tyFields
+  by_cases h : (ty == 1) = true <;>
+    simp [h, JCur.get, fieldOf, sTag_ne_sType, sValue_ne_sType]
+
+theorem get_sValue (T : Tables) (ty : Nat) (tag : Int) (v : JVal) (more : List JVal) :
+    JCur.get ⟨jsonElem T ty tag v :: more⟩ sValue = some v := by
+  rw [jsonElem_eq]
+  unfold tyFields
+  by_cases h : (ty == 1) = true <;>
+    simp [h, JCur.get, fieldOf]
+
+theorem jtag_jsonElem (T : Tables) (hT : T.WF) (ty : Nat) {tag : Int} (htag : tagOk tag = true) (v : JVal)
+    (more : List JVal) : JCur.tag T ⟨jsonElem T ty tag v :: more⟩ = tag := by
+  have ⟨h0, h1⟩ := tagOk_iff.mp htag
+  have h24 : tag.toNat < 2 ^ 24 := by simp; omega
+  have hnat : ((tag.toNat : Nat) : Int) = tag := by omega
+  unfold JCur.tag
+  rw [get_sTag]
+  simp only [tagString_nonneg T htag, tag_roundtrip hT.tags hT.tagsClean h24, hnat]
+
+theorem jty_jsonElem (T : Tables) {ty : Nat} (hty1 : 1 ≤ ty) (hty : ty < 11) (tag : Int) (v : JVal)
+    (more : List JVal) : JCur.ty ⟨jsonElem T ty tag v :: more⟩ = ty := by
+  unfold JCur.ty
+  rw [get_sType]
+  by_cases h : (ty == 1) = true
+  · simp only [h, if_true]; exact (beq_iff_eq.mp h).symm
+  · simp only [h, Bool.false_eq_true, if_false, typeName_nonempty ty hty hty1,
+      typeFromName_typeName ty hty hty1, Option.getD_some]
+
+/-- every JSON scalar getter on the element it wrote. -/
+theorem scalar_jsonElem {α : Type} (T : Tables) (hT : T.WF) {ty : Nat} (hty1 : 1 ≤ ty) (hty : ty < 11)
+    {tag : Int} (htag : tagOk tag = true) (val : JVal) (conv : Option JVal → Res α) {v : α}
+    (hconv : conv (some val) = .ok v) (more : List JVal) :
+    JCur.scalar T ⟨jsonElem T ty tag val :: more⟩ ty tag conv = .ok (v, ⟨more⟩) := by
+  unfold JCur.scalar
+  simp only [jtag_jsonElem T hT ty htag, jty_jsonElem T hty1 hty, ne_eq, not_true_eq_false, if_false,
+    get_sValue, hconv, Res.ok_bind, Res.pure_eq, JCur.next, List.tail_cons]
+
+/-! ## 10. JSON: trees -/
+
+section
+variable {T : Tables} (hT : T.WF) {R : Rfc3339} (hR : R.Lawful) {H : Hints}
+include hT hR
+
+theorem jDecodeValue_scalar (t : XItem) (hns : t.ty ≠ 1) (f : Nat) (more : List JVal)
+    (hr : t.representable H = true) :
+    jDecodeValue T R H (f + 1) ⟨jsonElem T t.ty t.tag (jsonValue T R t) :: more⟩ t.tag =
+      .ok (t, ⟨more⟩) := by
+  have htag := XItem.tagOk_of_rep hr
+  cases t with
+  | struct tag cs => exact absurd rfl hns
+  | int tag v =>
+    simp only [XItem.representable, Bool.and_eq_true, decide_eq_true_eq] at hr
+    simp only [XItem.ty, XItem.tag] at htag ⊢
+    rw [jDecodeValue, jty_jsonElem T (by decide) (by decide)]
+    simp only [hr.2, jsonValue]
+    rw [scalar_jsonElem T hT (ty := 2) (by decide) (by decide) htag _ jInteger (jInteger_num hr.1.2) more]
+    rfl
+  | mask tag m v =>
+    simp only [XItem.representable, Bool.and_eq_true, decide_eq_true_eq] at hr
+    simp only [XItem.ty, XItem.tag] at htag ⊢
+    rw [jDecodeValue, jty_jsonElem T (by decide) (by decide)]
+    simp only [hr.2, jsonValue]
+    rw [scalar_jsonElem T hT (ty := 2) (by decide) (by decide) htag _ _ (jMask_text (hT.mask _) hr.1.2) more]
+    rfl
+  | long tag v =>
+    simp only [XItem.representable, Bool.and_eq_true] at hr
+    simp only [XItem.ty, XItem.tag] at htag ⊢
+    rw [jDecodeValue, jty_jsonElem T (by decide) (by decide)]
+    simp only []
+    rw [scalar_jsonElem T hT (ty := 3) (by decide) (by decide) htag _ jLong (jLong_value hr.2) more]
+    rfl
+  | big tag v =>
+    simp only [XItem.ty, XItem.tag] at htag ⊢
+    rw [jDecodeValue, jty_jsonElem T (by decide) (by decide)]
+    simp only []
+    rw [scalar_jsonElem T hT (ty := 4) (by decide) (by decide) htag _ jBig jBig_value more]
+    rfl
+  | enum tag e v =>
+    simp only [XItem.representable, Bool.and_eq_true, decide_eq_true_eq] at hr
+    simp only [XItem.ty, XItem.tag] at htag ⊢
+    rw [jDecodeValue, jty_jsonElem T (by decide) (by decide)]
+    simp only [hr.2, jsonValue]
+    rw [scalar_jsonElem T hT (ty := 5) (by decide) (by decide) htag _ _
+      (jEnum_text (hT.enum _).1 (hT.enum _).2 (by simpa using hr.1.2)) more]
+    rfl
+  | bool tag b =>
+    simp only [XItem.ty, XItem.tag] at htag ⊢
+    rw [jDecodeValue, jty_jsonElem T (by decide) (by decide)]
+    simp only [jsonValue]
+    rw [scalar_jsonElem T hT (ty := 6) (by decide) (by decide) htag _ jBool (v := b) rfl more]
+    rfl
+  | text tag s =>
+    simp only [XItem.ty, XItem.tag] at htag ⊢
+    rw [jDecodeValue, jty_jsonElem T (by decide) (by decide)]
+    simp only [jsonValue]
+    rw [scalar_jsonElem T hT (ty := 7) (by decide) (by decide) htag _ jText (jText_str s) more]
+    rfl
+  | bytes tag s =>
+    simp only [XItem.ty, XItem.tag] at htag ⊢
+    rw [jDecodeValue, jty_jsonElem T (by decide) (by decide)]
+    simp only [jsonValue]
+    rw [scalar_jsonElem T hT (ty := 8) (by decide) (by decide) htag _ jBytes (jBytes_hex s) more]
+    rfl
+  | date tag v =>
+    simp only [XItem.representable, Bool.and_eq_true, decide_eq_true_eq] at hr
+    simp only [XItem.ty, XItem.tag] at htag ⊢
+    rw [jDecodeValue, jty_jsonElem T (by decide) (by decide)]
+    simp only [jsonValue]
+    rw [scalar_jsonElem T hT (ty := 9) (by decide) (by decide) htag _ (jDate R)
+      (jDate_format hR hr.1.2 hr.2) more]
+    rfl
+  | interval tag v =>
+    simp only [XItem.representable, Bool.and_eq_true, decide_eq_true_eq] at hr
+    simp only [XItem.ty, XItem.tag] at htag ⊢
+    rw [jDecodeValue, jty_jsonElem T (by decide) (by decide)]
+    simp only [jsonValue]
+    rw [scalar_jsonElem T hT (ty := 10) (by decide) (by decide) htag _ jInterval
+      (jInterval_num (by simpa using hr.2)) more]
+    rfl
+
+mutual
+  theorem jDecodeValue_write : ∀ (t : XItem) (fuel : Nat) (more : List JVal), t.size ≤ fuel →
+      t.representable H = true →
+      jDecodeValue T R H fuel ⟨jsonWrite T R t :: more⟩ t.tag = .ok (t, ⟨more⟩)
+    | .struct tag cs, fuel, more, hf, hr => by
+      obtain ⟨f, rfl⟩ : ∃ f, fuel = f + 1 := ⟨fuel - 1, by simp [XItem.size] at hf; omega⟩
+      simp only [XItem.representable, Bool.and_eq_true] at hr
+      have htag := hr.1
+      have hsz : XItem.sizeList cs ≤ f := by simp [XItem.size] at hf; omega
+      simp only [jsonWrite, XItem.tag]
+      rw [jDecodeValue, jty_jsonElem T (by decide) (by decide)]
+      simp only [jtag_jsonElem T hT 1 htag, ne_eq, not_true_eq_false, if_false, get_sValue]
+      rw [jDecodeFields_write cs f hsz hr.2]
+      rfl
+    | .int tag v, fuel, more, hf, hr => by
+      obtain ⟨f, rfl⟩ : ∃ f, fuel = f + 1 := ⟨fuel - 1, by simp [XItem.size] at hf; omega⟩
+      exact jDecodeValue_scalar hT hR (.int tag v) (by simp [XItem.ty]) f more hr
+    | .mask tag m v, fuel, more, hf, hr => by
+      obtain ⟨f, rfl⟩ : ∃ f, fuel = f + 1 := ⟨fuel - 1, by simp [XItem.size] at hf; omega⟩
+      exact jDecodeValue_scalar hT hR (.mask tag m v) (by simp [XItem.ty]) f more hr
+    | .long tag v, fuel, more, hf, hr => by
+      obtain ⟨f, rfl⟩ : ∃ f, fuel = f + 1 := ⟨fuel - 1, by simp [XItem.size] at hf; omega⟩
+      exact jDecodeValue_scalar hT hR (.long tag v) (by simp [XItem.ty]) f more hr
+    | .big tag v, fuel, more, hf, hr => by
+      obtain ⟨f, rfl⟩ : ∃ f, fuel = f + 1 := ⟨fuel - 1, by simp [XItem.size] at hf; omega⟩
+      exact jDecodeValue_scalar hT hR (.big tag v) (by simp [XItem.ty]) f more hr
+    | .enum tag e v, fuel, more, hf, hr => by
+      obtain ⟨f, rfl⟩ : ∃ f, fuel = f + 1 := ⟨fuel - 1, by simp [XItem.size] at hf; omega⟩
+      exact jDecodeValue_scalar hT hR (.enum tag e v) (by simp [XItem.ty]) f more hr
+    | .bool tag b, fuel, more, hf, hr => by
+      obtain ⟨f, rfl⟩ : ∃ f, fuel = f + 1 := ⟨fuel - 1, by simp [XItem.size] at hf; omega⟩
+      exact jDecodeValue_scalar hT hR (.bool tag b) (by simp [XItem.ty]) f more hr
+    | .text tag s, fuel, more, hf, hr => by
+      obtain ⟨f, rfl⟩ : ∃ f, fuel = f + 1 := ⟨fuel - 1, by simp [XItem.size] at hf; omega⟩
+      exact jDecodeValue_scalar hT hR (.text tag s) (by simp [XItem.ty]) f more hr
+    | .bytes tag s, fuel, more, hf, hr => by
+      obtain ⟨f, rfl⟩ : ∃ f, fuel = f + 1 := ⟨fuel - 1, by simp [XItem.size] at hf; omega⟩
+      exact jDecodeValue_scalar hT hR (.bytes tag s) (by simp [XItem.ty]) f more hr
+    | .date tag v, fuel, more, hf, hr => by
+      obtain ⟨f, rfl⟩ : ∃ f, fuel = f + 1 := ⟨fuel - 1, by simp [XItem.size] at hf; omega⟩
+      exact jDecodeValue_scalar hT hR (.date tag v) (by simp [XItem.ty]) f more hr
+    | .interval tag v, fuel, more, hf, hr => by
+      obtain ⟨f, rfl⟩ : ∃ f, fuel = f + 1 := ⟨fuel - 1, by simp [XItem.size] at hf; omega⟩
+      exact jDecodeValue_scalar hT hR (.interval tag v) (by simp [XItem.ty]) f more hr
+  theorem jDecodeFields_write : ∀ (cs : List XItem) (fuel : Nat), XItem.sizeList cs ≤ fuel →
+      XItem.representableList H cs = true →
+      jDecodeFields T R H fuel ⟨jsonWriteList T R cs⟩ = .ok cs
+    | [], fuel, hf, _ => by
+      obtain ⟨f, rfl⟩ : ∃ f, fuel = f + 1 := ⟨fuel - 1, by simp [XItem.sizeList] at hf; omega⟩
+      simp [jsonWriteList, jDecodeFields, JCur.tag, JCur.get]
+    | c :: cs, fuel, hf, hr => by
+      obtain ⟨f, rfl⟩ : ∃ f, fuel = f + 1 := ⟨fuel - 1, by simp [XItem.sizeList] at hf; omega⟩
+      simp only [XItem.representableList, Bool.and_eq_true] at hr
+      have h1 : c.size ≤ f := by simp [XItem.sizeList] at hf; omega
+      have h2 : XItem.sizeList cs ≤ f := by simp [XItem.sizeList] at hf; omega
+      have hv := jDecodeValue_write c f (jsonWriteList T R cs) h1 hr.1
+      have htag := tagOk_iff.mp (XItem.tagOk_of_rep hr.1)
+      have hcur : JCur.tag T ⟨jsonWrite T R c :: jsonWriteList T R cs⟩ = c.tag := by
+        cases c <;> simp only [jsonWrite, XItem.tag] <;>
+          exact jtag_jsonElem T hT _ (XItem.tagOk_of_rep hr.1) _ _
+      simp only [jsonWriteList]
+      rw [jDecodeFields, hcur]
+      have hne : ¬ c.tag = 0 := by omega
+      simp only [hne, if_false]
+      rw [hv]
+      simp only [Res.ok_bind]
+      rw [jDecodeFields_write cs f h2 hr.2]
+      rfl
+end
+
+omit hR in
+theorem jtag_write (t : XItem) (hr : t.representable H = true) (more : List JVal) :
+    JCur.tag T ⟨jsonWrite T R t :: more⟩ = t.tag := by
+  cases t <;> simp only [jsonWrite, XItem.tag] <;>
+    exact jtag_jsonElem T hT _ (XItem.tagOk_of_rep hr) _ _
+
+end
+
+theorem jsize_pos (j : JVal) : 1 ≤ j.size := by cases j <;> simp [JVal.size] <;> omega
+
+mutual
+  theorem size_le_jsize (T : Tables) (R : Rfc3339) : ∀ t : XItem, t.size + 1 ≤ 2 * (jsonWrite T R t).size
+    | .struct tag cs => by
+      have := sizeList_le_jsize T R cs
+      simp [jsonWrite, jsonElem, JVal.size, JVal.sizeFields, JVal.sizeField, XItem.size]; omega
+    | .int tag v => by
+      have := jsize_pos (jsonWrite T R (.int tag v))
+      simp [XItem.size]; omega
+    | .mask tag m v => by
+      have := jsize_pos (jsonWrite T R (.mask tag m v))
+      simp [XItem.size]; omega
+    | .long tag v => by
+      have := jsize_pos (jsonWrite T R (.long tag v))
+      simp [XItem.size]; omega
+    | .big tag v => by
+      have := jsize_pos (jsonWrite T R (.big tag v))
+      simp [XItem.size]; omega
+    | .enum tag e v => by
+      have := jsize_pos (jsonWrite T R (.enum tag e v))
+      simp [XItem.size]; omega
+    | .bool tag b => by
+      have := jsize_pos (jsonWrite T R (.bool tag b))
+      simp [XItem.size]; omega
+    | .text tag s => by
+      have := jsize_pos (jsonWrite T R (.text tag s))
+      simp [XItem.size]; omega
+    | .bytes tag s => by
+      have := jsize_pos (jsonWrite T R (.bytes tag s))
+      simp [XItem.size]; omega
+    | .date tag v => by
+      have := jsize_pos (jsonWrite T R (.date tag v))
+      simp [XItem.size]; omega
+    | .interval tag v => by
+      have := jsize_pos (jsonWrite T R (.interval tag v))
+      simp [XItem.size]; omega
+  theorem sizeList_le_jsize (T : Tables) (R : Rfc3339) : ∀ cs : List XItem,
+      XItem.sizeList cs ≤ 2 * JVal.sizeList (jsonWriteList T R cs) + 1
+    | [] => by simp [XItem.sizeList, jsonWriteList, JVal.sizeList]
+    | c :: cs => by
+      have h1 := size_le_jsize T R c
+      have h2 := sizeList_le_jsize T R cs
+      simp [XItem.sizeList, jsonWriteList, JVal.sizeList]; omega
+end
+
+/-- JSON: the reader reads back every representable tree the writer wrote. -/
+theorem jsonRead_write {T : Tables} (hT : T.WF) {R : Rfc3339} (hR : R.Lawful) {H : Hints} (t : XItem)
+    (hr : t.representable H = true) : jsonRead T R H (jsonWrite T R t) = .ok t := by
+  unfold jsonRead
+  simp only [jtag_write hT (R := R) t hr []]
+  rw [jDecodeValue_write hT hR t _ [] (by have := size_le_jsize T R t; omega) hr]
+  rfl
 
 end Kmip.Lex
